@@ -44,6 +44,7 @@ def build(run, prop=ID):
     E.live_modules = ("codec",)
     cd = toolkit("codec")
     sect(run, build_field, run, prop, E, cd)
+    sect(run, build_presence_agreement, run, prop, E, cd)
     sect(run, build_ints, run, prop, E, cd)
     sect(run, build_buf_spare, run, prop, E, cd)
     sect(run, build_bitfields, run, prop, E, cd)
@@ -114,6 +115,36 @@ def build_field(run, prop, E, cd):
                 continue
             run.add(Obligation(prop, qualname(tb), "EncodeError_iff_fixed_length_mismatch", p.pc, z3.Not(mism), kind="post", case=cs + ",returns", where=where(tb), tag=tag))
             run.add(Obligation(prop, qualname(tb), "returns_the_value_encoding", p.pc, z3.BoolVal(isinstance(r, SSeq) and len(calls) == 1), kind="post", case=cs, where=where(tb), tag=tag))
+
+
+def build_presence_agreement(run, prop, E, cd):
+    """Presence callbacks are documented to return bool, but the code tests `is False`: for any other value (0, 1, None, '', a list)
+    decoder and encoder must still AGREE on whether the field is there - otherwise decode(encode(v)) loses or misplaces octets."""
+    fb, tb = raw(cd.Field, "from_bytes"), raw(cd.Field, "to_bytes")
+    E.summaries = {}
+    for label, pv in (("0", 0), ("1", 1), ("None", None), ("''", ""), ("[]", [])):
+        cs = "get_pres returns %s" % label
+        seen = {}
+        for side, fn in (("dec", fb), ("enc", tb)):
+            def setup(E, pv=pv):
+                calls = []
+                E.ghost["calls"] = calls
+                f = SObj(cd.Buf, {"name": "x", "len": 0, "get_pres": eng(lambda E, vals: pv), "get_len": eng(lambda E, vals, data: 2),
+                                  "_from_bytes": eng(lambda E, vals, data: calls.append("from")),
+                                  "_to_bytes": eng(lambda E, vals: (calls.append("to"), mk_bytes(b"\x01\x02"))[1])})
+                return {"f": f, "vals": {}, "data": mk_bytes(b"\x01\x02\x03")}
+            outs = set()
+            for p, ctx, out in run_paths(E, setup, (lambda E, ctx: E.call(fb, [ctx["f"], ctx["vals"], ctx["data"]])) if side == "dec"
+                                         else (lambda E, ctx: E.call(tb, [ctx["f"], ctx["vals"]]))):
+                outs.add("raise" if out[0] == "raise" else ("present" if p.ghost.get("calls") else "absent"))
+            seen[side] = outs
+        ok = len(seen["dec"]) == 1 and seen["dec"] == seen["enc"] and "raise" not in seen["dec"]
+        run.add(Obligation(prop, "codec.Field", "decoder_and_encoder_agree_on_presence", [], z3.BoolVal(bool(ok)), kind="post", case=cs, where=W,
+                           tag={"what": "presence", "value": label}, note="decoder: %s, encoder: %s" % (sorted(seen["dec"]), sorted(seen["enc"]))))
+
+
+def mk_bytes(b):
+    return models.mk_seq("bytes", list(b))
 
 
 # ------------------------------------------------------------------ integers
@@ -903,6 +934,23 @@ def replay(payload):
         blob = sum(exp["f%d" % i] << fl.offset for i, fl in enumerate(fields))
         ok = out == exp and lay_ok and int.from_bytes(b, "big") == blob
         return {"confirmed": not ok, "observed": [list(b), out], "expected": exp}
+    if what == "presence":
+        bad = []
+        for label, pv in (("0", 0), ("1", 1), ("None", None), ("''", ""), ("[]", []), ("False", False), ("True", True)):
+            fld = cd.Buf("x", len=2)
+            fld.get_pres = lambda v, pv=pv: pv
+            env_cls = type("E", (cd.Envelope,), {"STRUCT": (cd.Uint("a"), fld, cd.Uint("b"))})
+            e = env_cls()
+            e.c.update({"a": 7, "x": b"\x01\x02", "b": 9})
+            try:
+                enc = e.to_bytes()
+                d = env_cls()
+                n = d.from_bytes(enc)
+                if n != len(enc) or d.c.get("a") != 7 or d.c.get("b") != 9 or (len(enc) == 4 and d.c.get("x") != b"\x01\x02"):
+                    bad.append({"get_pres returns": label, "encoding": list(enc), "decoded": {k: (list(v) if isinstance(v, bytes) else v) for k, v in d.c.items()}})
+            except Exception as ex:
+                bad.append({"get_pres returns": label, "raises": "%s: %s" % (type(ex).__name__, ex)})
+        return {"confirmed": bool(bad), "observed": bad or "decode(encode(v)) == v for every presence value", "expected": "decoder and encoder agree on presence"}
     if what in ("Buf", "Spare"):
         cls = getattr(cd, what)
         dl = max(0, f.get("decl.len") or 0)
